@@ -618,3 +618,150 @@ def rule_bp_cache_invalidate(ctx):
                                       where=f"{m.relpath}:{writes[0].lineno}", operand=attr))
     r.floor(n, 1, "(message writer, memo) pairs in the belief-propagation classes")
     return r
+
+
+def rule_pair_normaliser_phase(ctx):
+    r = RuleResult(
+        "pair-normaliser-phase",
+        "normalize_message_pair makes the overlap <mi|mj> of the two messages of a bond equal to one (the loop / cluster expansions "
+        "drop these overlaps as unit factors): when the magnitude it divides by is taken with abs(...), the sign / phase of the overlap "
+        "— overlap / abs(overlap) — also divides one of the returned messages; dividing by the magnitude alone leaves <mi|mj> = phase",
+    )
+    f = ctx.prog.func("quimb.tensor.belief_propagation.bp_common", "normalize_message_pair")
+    if f is None:
+        raise AnalysisError("pair-normaliser-phase: bp_common.normalize_message_pair not found")
+    params = f.posparams[:2]
+    defs = {a.targets[0].id: a.value for a in ast.walk(f.node) if isinstance(a, ast.Assign) and len(a.targets) == 1 and isinstance(a.targets[0], ast.Name)}
+
+    def is_abs(e):
+        return isinstance(e, ast.Call) and ((dotted(e.func) or "").split(".")[-1] in ("abs", "absolute") or (e.args and const_value(e.args[0], None) in ("abs", "absolute")))
+
+    def is_overlap(e, depth=0):
+        """mi @ mj of the two parameters (directly or through a local)"""
+        if isinstance(e, ast.BinOp) and isinstance(e.op, ast.MatMult):
+            names = {y.id for y in ast.walk(e) if isinstance(y, ast.Name)}
+            return set(params) <= names
+        if isinstance(e, ast.Name) and e.id in defs and depth < 3:
+            return is_overlap(defs[e.id], depth + 1)
+        return False
+
+    abs_of_overlap = [c for c in ast.walk(f.node) if is_abs(c) and any(is_overlap(a) for a in c.args)]
+    rets = [x.value for x in ast.walk(f.node) if isinstance(x, ast.Return) and x.value is not None]
+    where = f"{f.module.relpath}:{f.lineno}"
+    if not abs_of_overlap:
+        r.ok("normalize_message_pair", sample={"magnitude": "not taken with abs() — the full overlap is divided out"})
+        return r
+    # a phase local: <overlap> / <abs of overlap>, used (transitively) in a returned expression
+    phase_locals = set()
+    for name, v in defs.items():
+        if isinstance(v, ast.BinOp) and isinstance(v.op, ast.Div) and is_overlap(v.left):
+            right_ok = is_abs(v.right) or (isinstance(v.right, ast.Name) and v.right.id in defs and is_abs(defs[v.right.id]))
+            if right_ok:
+                phase_locals.add(name)
+    used = set()
+    frontier = [y.id for v in rets for y in ast.walk(v) if isinstance(y, ast.Name)]
+    while frontier:
+        x = frontier.pop()
+        if x in used:
+            continue
+        used.add(x)
+        if x in defs:
+            frontier += [y.id for y in ast.walk(defs[x]) if isinstance(y, ast.Name)]
+    if phase_locals & used:
+        r.ok("normalize_message_pair", sample={"magnitude": "abs(overlap)", "phase": sorted(phase_locals & used)})
+    else:
+        r.bad(Finding("pair-normaliser-phase", "normalize_message_pair",
+                      "divides the pair by a magnitude taken with abs(<mi|mj>) but never by the overlap's sign / phase: after normalisation <mi|mj> is that phase, not 1, "
+                      "and every expansion that drops the bond overlaps returns the wrong sign / phase", where=where, operand="phase"))
+    return r
+
+
+def rule_excluded_tensors_accounted(ctx):
+    r = RuleResult(
+        "excluded-tensors-accounted",
+        "the vectorised BP (HV1BP) leaves tensors without indices out of its batched arrays (`if rank == 0: continue` while batching): "
+        "they exchange no messages but are still factors of the network's value, so the batched value route contract() has to multiply "
+        "them in — it must contain its own pass over the tensors that selects those with ndim == 0",
+    )
+    m = ctx.prog.modules.get("quimb.tensor.belief_propagation.hv1bp")
+    if m is None:
+        raise AnalysisError("excluded-tensors-accounted: hv1bp module not found")
+
+    def zero_rank_tests(fnode):
+        out = []
+        for x in ast.walk(fnode):
+            if isinstance(x, ast.Compare) and len(x.ops) == 1 and isinstance(x.ops[0], ast.Eq) and const_value(x.comparators[0], None) == 0:
+                l = x.left
+                if (isinstance(l, ast.Attribute) and l.attr == "ndim") or isinstance(l, ast.Name):
+                    out.append(x)
+        return out
+
+    # where batching skips tensors
+    skipping = []
+    for f in m.all_functions:
+        if f.is_alias or isinstance(f.node, ast.Lambda):
+            continue
+        for st in ast.walk(f.node):
+            if isinstance(st, ast.If) and any(isinstance(b, ast.Continue) for b in st.body):
+                for t in zero_rank_tests(st.test):
+                    # the tested name is a tensor's ndim
+                    if isinstance(t.left, ast.Attribute) or any(isinstance(a, ast.Assign) and any(isinstance(tt, ast.Name) and tt.id == t.left.id for tt in a.targets)
+                                                                and isinstance(a.value, ast.Attribute) and a.value.attr == "ndim" for a in ast.walk(f.node)):
+                        skipping.append((f, st))
+    if not skipping:
+        r.ok("HV1BP", sample={"batching": "no tensor is left out of the batches"})
+        return r
+    cls = m.classes.get("HV1BP")
+    c = cls.methods.get("contract") if cls else None
+    if c is None:
+        raise AnalysisError("excluded-tensors-accounted: HV1BP.contract not found")
+    accounted = any(isinstance(lp, ast.For) and any(isinstance(y, ast.Attribute) and y.attr == "tensor_map" for y in ast.walk(lp.iter)) and zero_rank_tests(lp)
+                    for lp in ast.walk(c.node))
+    f0, st0 = skipping[0]
+    if accounted:
+        r.ok("HV1BP.contract", sample={"skipped while batching": f"{f0.qualname}:{st0.lineno}", "multiplied in": "contract() passes over tensors with ndim == 0"})
+    else:
+        r.bad(Finding("excluded-tensors-accounted", "HV1BP.contract",
+                      f"{f0.qualname} (line {st0.lineno}) leaves rank-0 tensors out of the batches and contract() only multiplies the batched region estimates: "
+                      "a scalar tensor of the network is dropped from the value", where=f"{m.relpath}:{c.lineno}", operand="rank-0"))
+    return r
+
+
+def rule_gloop_singletons(ctx):
+    r = RuleResult(
+        "gloop-singletons",
+        "sibling agreement between the generalized-loop expansions of the whole network value (`contract_gloop_expand` of the BP classes): "
+        "the regions handed to gen_region_counts are the loops *chained with every single tensor region* — a tensor that no loop covers "
+        "otherwise contributes nothing (a tree expands to 1)",
+    )
+    n = 0
+    for m in ctx.prog.modules.values():
+        if not m.name.startswith("quimb.tensor.belief_propagation"):
+            continue
+        for c in m.classes.values():
+            f = c.methods.get("contract_gloop_expand")
+            if f is None or f.cls is not c or f.is_alias:
+                continue
+            calls = [x for x in ast.walk(f.node) if isinstance(x, ast.Call) and (dotted(x.func) or "").split(".")[-1] == "gen_region_counts"]
+            if not calls:
+                continue
+            for call in calls:
+                n += 1
+                a0 = call.args[0] if call.args else None
+                # through one local
+                if isinstance(a0, ast.Name):
+                    ds = [a.value for a in ast.walk(f.node) if isinstance(a, ast.Assign) and any(isinstance(t, ast.Name) and t.id == a0.id for t in a.targets)]
+                    exprs = ds + [a0]
+                else:
+                    exprs = [a0]
+                singles = any(isinstance(g, ast.GeneratorExp) and isinstance(g.elt, ast.Tuple) and len(g.elt.elts) == 1
+                              and any(isinstance(y, ast.Attribute) and y.attr == "tensor_map" for y in ast.walk(g.generators[0].iter))
+                              for e in exprs if e is not None for g in ast.walk(e))
+                q = f"{c.name}.contract_gloop_expand"
+                if singles:
+                    r.ok(q, sample={"class": c.name, "regions": src_of(call.args[0])[:70] if call.args else ""})
+                else:
+                    r.bad(Finding("gloop-singletons", q, f"`{src_of(call)[:60]}` expands over the loops only: the single tensor regions its siblings chain in are missing, "
+                                                         "so tensors outside every loop are left out of the value", where=f"{m.relpath}:{call.lineno}", operand="singletons"))
+    r.floor(n, 3, "contract_gloop_expand implementations")
+    return r
